@@ -207,7 +207,7 @@ class BaseParagraph(debcon.FieldMixin):
             # if everything is "extra_data" this means there are no known names.
             known_names = set()
         else:
-            known_names = set(fields_dict(cls))
+            known_names = set(fields_dict(cls)) - {'extra_data', 'line_numbers_by_field'}
 
         para_data = {}
         para_data['extra_data'] = extra_data = {}
@@ -225,8 +225,9 @@ class BaseParagraph(debcon.FieldMixin):
 
             # If there are duplicated fields, we keep them all, but rename them
             # with a number suffix; they will go in the extra_data mapping.
-            if name in seen_names:
-                name = f'{name}_{duplicated_field_name_suffix}'
+            base_name = name
+            while name in seen_names:
+                name = f'{base_name}_{duplicated_field_name_suffix}'
                 duplicated_field_name_suffix += 1
             seen_names.add(name)
 
